@@ -61,9 +61,10 @@ def scripts(tier, seed, scale=1):
     # exhaustive histories per kind
     for kind in ("meta", "buf"):
         pairs = [(a, "1") for a in PRESETS] + [("max", "max"), ("1", "max")]
-        if tier == "quick" and kind == "buf":
-            # the array handle paths differ from the pointer paths only in mpt_array_clone: fewer presets in the quick tier
-            pairs = [("1", "1"), ("0", "1"), ("max", "1"), ("1", "max")]
+        if tier == "quick":
+            # quick tier: the boundary presets once per side; the array handle paths differ from the pointer paths only
+            # in mpt_array_clone
+            pairs = [("1", "1"), ("0", "1"), ("2", "1"), ("max", "1"), ("1", "max")] if kind == "meta" else [("1", "1"), ("max", "1")]
         for p0, p1 in pairs:
             if True:
                 head = ["r begin", "r obj %s %s" % (kind, p0), "r obj %s %s" % (kind, p1)]
@@ -72,6 +73,14 @@ def scripts(tier, seed, scale=1):
                 d = depth if (tier == "quick" or (p0, p1) == ("1", "1")) else 3
                 for hist in itertools.product(ops, repeat=d):
                     out.append(("ex:%s:%s/%s:%s" % (kind, p0, p1, "|".join(x[2:] for x in hist)), head + list(hist) + ["r end"]))
+    # the local output's target reference (mptplot/history/output_local.c, property ""): assign, re-assign the
+    # value already held (also as sole owner), replace, drop
+    for p0 in ("1", "2", "max", "0"):
+        head = ["r begin", "r obj meta %s" % p0, "r obj meta 1", "r lo new"]
+        ops = ["r lo set 0", "r lo set 1", "r lo drop", "r take 0 0", "r take 0 1", "r drop 0", "r ext 0 unref", "r ext 1 unref",
+               "r ext 0 addref", "r assigno 0 0", "r assigno 0 1"]
+        for hist in itertools.product(ops, repeat=3 if p0 != "1" or tier == "quick" else 4):
+            out.append(("ex:lo:%s:%s" % (p0, "|".join(x[2:] for x in hist)), head + list(hist) + ["r end"]))
     # the stream input reference traits (mptio/input_traits.c) on the metatype objects
     for p0, p1 in [(a, "1") for a in PRESETS] + [("max", "max"), ("0", "0")]:
         head = ["r begin", "r traits input", "r obj meta %s" % p0, "r obj meta %s" % p1]
@@ -88,11 +97,13 @@ def scripts(tier, seed, scale=1):
                     for hist in itertools.product(_ops(2, 2, [True, True]), repeat=3):
                         out.append(("ex:%s:%s/%s:%s" % (kind, p0, p1, "|".join(x[2:] for x in hist)), head + list(hist) + ["r end"]))
     for kind, arg in (("rbuf", "10"), ("raw", "1")):
-        head = ["r begin", "r obj %s %s" % (kind, arg), "r obj %s %s" % (kind, "1")]
+        head = ["r begin", "r obj %s %s" % (kind, arg), "r obj %s %s" % (kind, "0" if kind == "rbuf" else "1")]
         ops = _ops(2, 2, [False, False])
         if kind == "rbuf":
-            # private copies of shared / unshared library buffers: too small (refused), sufficient, larger than the buffer
+            # private copies of shared / unshared library buffers: too small (refused), sufficient, larger than the buffer;
+            # mpt_array_reserve on empty handles, shared (also EMPTY shared) and unshared buffers
             ops = ops + ["r detach %d %d" % (h, n) for h in range(2) for n in (1, 10, 30)]
+            ops = ops + ["r reserve %d %d" % (h, n) for h in range(2) for n in ((4, 30) if tier == "quick" else (0, 4, 30))]
         for hist in itertools.product(ops, repeat=3):
             out.append(("ex:%s:%s" % (kind, "|".join(x[2:] for x in hist)), head + list(hist) + ["r end"]))
     # mixed kinds: a buffer handle cannot take library and harness buffers at once
@@ -114,12 +125,16 @@ def scripts(tier, seed, scale=1):
             if kd in ("meta", "buf"):
                 lines.append("r obj %s %s" % (kd, r.choice(["1", "1", "2", "3", "0", "max-1", "max"])))
             elif kd == "rbuf":
-                lines.append("r obj rbuf %d" % r.choice([0, 1, 3, 9, 10, 24, 25]))
+                lines.append("r obj rbuf %d" % r.choice([0, 0, 1, 3, 9, 10, 24, 25]))
             else:
                 lines.append("r obj raw 1")
         ops = _ops(len(kinds), 3, [kd in ("meta", "buf") for kd in kinds])
         if "rbuf" in kinds:
             ops = ops + ["r detach %d %d" % (h, n) for h in range(3) for n in (0, 1, 3, 8, 9, 24, 25, 40)]
+            ops = ops + ["r reserve %d %d" % (h, n) for h in range(3) for n in (0, 1, 8, 9, 25)]
+        if "meta" in kinds and r.random() < 0.5:
+            lines.append("r lo new")
+            ops = ops + ["r lo set %d" % o for o, kd in enumerate(kinds) if kd == "meta"] * 2 + ["r lo drop"]
         for _ in range(r.choice([4, 8, 16, 30])):
             lines.append(r.choice(ops))
         lines.append("r end")
@@ -172,6 +187,21 @@ class _XX:
         for hist in itertools.product(["x next 0", "x assign 1 0", "x copy 2 0", "x move 1 0", "x drop 0", "x next 1", "x setnext 2 0",
                                        "x setnext 0 0", "x detach 0", "x ext 0 unref"], repeat=3):
             out.append(("xchain:%s" % "|".join(x[2:] for x in hist), chain + list(hist) + ["x end"]))
+        # unique_array handles: shared NoCopy buffers refuse a private copy while they hold elements
+        uops = []
+        for a in range(2):
+            uops += ["x ua insert %d" % a, "x ua resize %d 0" % a, "x ua resize %d 2" % a, "x ua drop %d" % a]
+            uops += ["x ua copy %d %d" % (a, b) for b in range(2)]
+        for hist in itertools.product(uops, repeat=3 if tier == "quick" else 5):
+            out.append(("xua:%s" % "|".join(x[5:] for x in hist), ["x begin"] + list(hist) + ["x ua drop 0", "x ua drop 1"]))
+        ru = gen.rng(id, tier, seed, "xua-random")
+        uops3 = []
+        for a in range(3):
+            uops3 += ["x ua insert %d" % a] * 2 + ["x ua resize %d %d" % (a, n) for n in (0, 1, 5, 40)] + ["x ua drop %d" % a]
+            uops3 += ["x ua copy %d %d" % (a, b) for b in range(3)]
+        for k in range((300 if tier == "quick" else 4000) * scale):
+            out.append(("xuarnd:%d" % k, ["x begin"] + [ru.choice(uops3) for _ in range(ru.choice([4, 8, 16, 30]))] +
+                        ["x ua drop %d" % a for a in range(3)]))
         r = gen.rng(id, tier, seed, "xx-random")
         for k in range((300 if tier == "quick" else 4000) * scale):
             lines = ["x begin"]
@@ -235,7 +265,58 @@ class _KK:
     finding_key = staticmethod(lambda script, res: finding_key(script, res))
 
 
-extra_parts = [_XX, _KK]
+class _NN:
+    """fourth part: stream inputs held by a notifier (mptio/notify/*.c) through harness/drv_refnotify.c: harness inputs with
+    a logging vtable that name one of three real descriptors"""
+    id = "C15"
+    area = "refcount"
+    driver = "drv_refnotify"
+    cxx = False
+    fixed_lines = 1
+
+    @staticmethod
+    def corpus(chk):
+        return [(n, s_) for n, s_ in gen.corpus(id) if s_ and s_[0].startswith("n ")]
+
+    @staticmethod
+    def scripts(tier, seed, scale=1):
+        out = []
+        ops = []
+        for i in range(2):
+            ops += ["n add %d" % i, "n config %d" % i] + ["n change %d %s" % (i, s_) for s_ in ("0", "1", "none")]
+        ops += ["n clear 0", "n clear 1", "n fini"]
+        for c0, s0, s1 in (("1", "0", "1"), ("1", "0", "0"), ("max", "0", "1"), ("2", "none", "0")):
+            head = ["n begin", "n input %s %s" % (c0, s0), "n input 1 %s" % s1]
+            for hist in itertools.product(ops, repeat=3 if tier == "quick" else 4):
+                out.append(("nn:%s%s%s:%s" % (c0, s0, s1, "|".join(x[2:] for x in hist)), head + list(hist) + ["n end"]))
+        # readiness: one readable descriptor, wait, then the reported input is cleared / fails / is fetched
+        wops = ["n wait", "n next", "n clear 0", "n clear 1", "n add 0", "n add 1", "n nextfail 0 1", "n change 0 1", "n fini"]
+        head = ["n begin", "n input 1 0", "n input 1 1", "n add 0", "n add 1", "n ready 0", "n ext 0"]
+        head = head[:-1]
+        for hist in itertools.product(wops, repeat=3 if tier == "quick" else 4):
+            out.append(("nw:%s" % "|".join(x[2:] for x in hist), head + list(hist) + ["n next", "n end"]))
+        r = gen.rng(id, tier, seed, "nn-random")
+        for k in range((300 if tier == "quick" else 4000) * scale):
+            n = r.choice([1, 2, 3])
+            lines = ["n begin"] + ["n input %s %s" % (r.choice(["1", "1", "2", "0", "max"]), r.choice(["0", "1", "2", "none"])) for _ in range(n)]
+            rops = []
+            for i in range(n):
+                rops += ["n add %d" % i, "n add %d" % i, "n config %d" % i] + ["n change %d %s" % (i, s_) for s_ in ("0", "1", "2", "none")] + ["n nextfail %d %d" % (i, b) for b in (0, 1)]
+            rops += ["n clear %d" % s_ for s_ in range(3)] + ["n wait", "n next", "n wait", "n next", "n fini"]
+            if r.random() < 0.6:
+                lines.append("n ready %d" % r.randrange(3))
+            for _ in range(r.choice([4, 8, 16, 30])):
+                lines.append(r.choice(rops))
+            lines.append("n end")
+            out.append(("nnrnd:%d" % k, lines))
+        return out
+
+    nontrivial = staticmethod(lambda script, c_lines: nontrivial(script, c_lines))
+    tally = staticmethod(lambda chk, script, c_lines: tally(chk, script, c_lines))
+    finding_key = staticmethod(lambda script, res: finding_key(script, res))
+
+
+extra_parts = [_XX, _KK, _NN]
 
 
 def nontrivial(script, c_lines):
